@@ -1625,10 +1625,13 @@ def line_exprs(path, with_iter=False):
     def add(e, st):
         if isinstance(e, ast.Starred):
             e = e.value
-        if _is_each(e):
-            out.append((e.args[0], st, e.args[1]))
-        else:
-            out.append((e, st, None))
+        it = None
+        while _is_each(e):
+            # each of (each of ...): the line itself, ranging over the innermost collection
+            it, e = e.args[1], e.args[0]
+            if isinstance(e, ast.Starred):
+                e = e.value
+        out.append((e, st, it))
     for c, st in path.calls:
         if isinstance(c.func, ast.Attribute) and c.func.attr in ('append', 'extend') and len(c.args) == 1:
             a0 = c.args[0]
